@@ -32,10 +32,6 @@ Proof.
   apply bytes_eqb_eq in E. subst. rewrite bytes_eqb_refl in H1. discriminate.
 Qed.
 
-Lemma no_byte_notin bad s c : no_byte bad s = true -> bad c = true -> ~ In c s.
-Proof.
-  unfold no_byte. rewrite forallb_forall. intros H Hb Hin. specialize (H c Hin). rewrite Hb in H. discriminate.
-Qed.
 
 Section Mod.
 Variable TL : list (N * (String.string * list okind)).
@@ -54,13 +50,13 @@ Notation run := (run TL parse_f64).
 (* ---------------------------------------------------------------- .string *)
 Definition string_line (s : list byte) : text := B ".string """ ++ escape s ++ [34].
 
-Lemma string_line_prep s : ~ In 59 s -> ~ In 35 s -> prep_line (string_line s) = string_line s.
+Lemma string_line_prep s : prep_line (string_line s) = string_line s.
 Proof.
-  intros H1 H2. apply prep_line_id.
-  - unfold string_line. apply no59_app; [split; intros H; repeat (destruct H as [H|H]; [discriminate|]); destruct H|].
-    apply no59_app; [|apply no59_cons; try discriminate; apply no59_nil].
-    split; apply escape_no; try discriminate; assumption.
-  - right. exists (B ".string """ ++ escape s), 34. split; [unfold string_line; rewrite app_assoc; reflexivity|reflexivity].
+  unfold prep_line, string_line.
+  change (B ".string """ ++ escape s ++ [34]) with (B ".string " ++ 34 :: escape s ++ [34]).
+  rewrite cut_false_app by (repeat split; intros H; repeat (destruct H as [H|H]; [discriminate|]); destruct H).
+  rewrite cut_false_quote, cut_true_escape. cbn [cut_comment].
+  apply rtrim_solid. exists (B ".string " ++ 34 :: escape s), 34. split; [rewrite <- app_assoc; reflexivity|reflexivity].
 Qed.
 
 Lemma process_string st s : lenN s < string_buf ->
@@ -92,7 +88,7 @@ Proof.
   assert (G : forall c, In c (pre ++ print_dec n) -> plain_char c = true \/ c = 32).
   { intros c H. apply in_app_or in H. destruct H as [H|H]; [apply Hp, H|left; apply P, H]. }
   split; [|split; [|split]].
-  - split; intros H; destruct (G _ H) as [E|E]; discriminate E.
+  - repeat split; intros H; destruct (G _ H) as [E|E]; discriminate E.
   - apply ends_solid_app, plain_solid; [rewrite Forall_forall; exact P|apply print_dec_nonempty].
   - intros H; destruct (G _ H) as [E|E]; discriminate E.
   - intros H; destruct (G _ H) as [E|E]; discriminate E.
@@ -127,7 +123,7 @@ Lemma process_end st : a_in_fn st = true ->
       inl {| a_mod := {| m_flags := m_flags (a_mod st); m_entry := m_entry (a_mod st); m_strings := m_strings (a_mod st);
                          m_funcs := set_fn_code (m_funcs (a_mod st)) (a_cur st) (lenN (m_code (a_mod st))) (a_size st);
                          m_code := m_code (a_mod st) ++ code |};
-             a_labels := a_labels st; a_patches := filter (fun p => negb (p_fn p =? a_cur st)) (a_patches st);
+             a_labels := []; a_patches := filter (fun p => negb (p_fn p =? a_cur st)) (a_patches st);
              a_in_fn := false; a_cur := a_cur st; a_rcode := a_rcode st; a_size := a_size st |}
   end.
 Proof.
